@@ -51,7 +51,7 @@ def generate(batch: str, r: Rng, idx: int, tier: str) -> Dict[str, Any]:
     while len(ops) < n:
         k = r.weighted([("set", 10), ("get", 8), ("restart", 1), ("sweep", 1)])
         if k == "set":
-            name = r.choice(NAMES + NAMES + TEMPS[:4]) if r.chance(9, 10) else r.choice(TEMPS)
+            name = r.choice(NAMES + NAMES + TEMPS[:4]) if r.chance(4, 5) else r.choice(TEMPS)
             v = r.choice(VALUES) if r.chance(1, 2) else r.below(1 << 32)
             ops.append(["set", name, v])
             # read back an overlapping view right away in half of the cases
@@ -60,9 +60,13 @@ def generate(batch: str, r: Rng, idx: int, tier: str) -> Dict[str, Any]:
                          "I": r.choice(["IL", "IH"]), "F": r.choice(["FC", "FZ"]), "FC": "F", "FZ": "F"}.get(name, name)
                 ops.append(["get", other])
         elif k == "get":
-            ops.append(["get", r.choice(NAMES + TEMPS[:3])])
+            ops.append(["get", r.choice(NAMES + TEMPS[:3]) if r.chance(3, 4) else r.choice(TEMPS)])
         elif k == "restart":
             ops.append(["restart", r.choice(["apply", "pack"])])
+            if r.chance(1, 2):
+                # read the whole register file back right after the restore
+                for name in NAMES + TEMPS:
+                    ops.append(["get", name])
         else:
             for name in NAMES:
                 ops.append(["get", name])
